@@ -60,7 +60,57 @@ func (r *Run) atomicOp(st *State, fr *Frame, name string, recv T, args []Val, si
 	return nil
 }
 
+// reflectCall: trusted specification of package reflect (DESIGN §4). Values of type reflect.Value and
+// reflect.Type are opaque; the predicates the package relies on are uninterpreted functions.
 func (r *Run) reflectCall(st *State, fr *Frame, name string, recv Val, args []Val, sig *types.Signature, dst ssa.Value, in ssa.Instruction) []*State {
+	e := r.e
+	if !strings.Contains(name, "reflect.") {
+		return nil
+	}
+	vs := Sort("X_reflect.Value")
+	e.declSort(vs)
+	done := func(v ...Val) []*State {
+		e.handled = true
+		r.setResult(st, fr, dst, v)
+		r.afterCall(st, fr, name, args, v, sig, in)
+		return nil
+	}
+	uf := func(fn string, res Sort, a ...T) T {
+		var so []Sort
+		for _, x := range a {
+			so = append(so, x.So)
+		}
+		return App(res, e.namedFun(fn, so, res), a...)
+	}
+	switch name {
+	case "reflect.ValueOf":
+		x := e.asTerm(args[0], SAny)
+		v := uf("rv_of", vs, x)
+		st.assume(Eq(uf("rv_iface", SAny, v), x))
+		st.assume(Eq(uf("rv_valid", SBool, v), Not(Eq(x, NilOf(SAny)))))
+		return done(v)
+	case "(reflect.Value).Interface":
+		v := e.asTerm(recv, vs)
+		e.safety(st, fr, in, "rvvalid", uf("rv_valid", SBool, v), "reflect.Value.Interface on a valid Value at "+e.posOf(in))
+		return done(uf("rv_iface", SAny, v))
+	case "(reflect.Value).Kind":
+		v := e.asTerm(recv, vs)
+		k := uf("rv_kind", e.sortOf(sig.Results().At(0).Type()), v)
+		return done(k)
+	case "(reflect.Value).TryRecv":
+		v := e.asTerm(recv, vs)
+		x := e.freshConst("tryrecv", vs)
+		ok := e.freshConst("tryrecv_ok", SBool)
+		st.assume(Implies(ok, uf("rv_valid", SBool, x)))
+		_ = v
+		return done(x, ok)
+	case "(reflect.Value).IsNil":
+		v := e.asTerm(recv, vs)
+		return done(uf("rv_isnil", SBool, v))
+	case "(reflect.Value).Pointer":
+		v := e.asTerm(recv, vs)
+		return done(uf("rv_pointer", e.sortOf(sig.Results().At(0).Type()), v))
+	}
 	return nil
 }
 
